@@ -315,6 +315,11 @@ class ScanProgress:
         return result if touched else False
 
     def _match_from_pos(self) -> bool:
+        if getattr(self, "_mfp", None) is None:
+            self._mfp = self._match_from_pos_uncached()
+        return self._mfp
+
+    def _match_from_pos_uncached(self) -> bool:
         for n in walk_no_nested(self.fi.node):
             if isinstance(n, ast.Assign) and len(n.targets) == 1 and isinstance(n.targets[0], ast.Name) and n.targets[0].id == "match":
                 if ast.unparse(n.value) != f"pattern.match(content, {self.var})":
@@ -322,6 +327,11 @@ class ScanProgress:
         return True
 
     def _span_end_from_same_span(self) -> bool:
+        if getattr(self, "_sefs", None) is None:
+            self._sefs = self._span_end_uncached()
+        return self._sefs
+
+    def _span_end_uncached(self) -> bool:
         for n in walk_no_nested(self.fi.node):
             if isinstance(n, ast.Assign) and len(n.targets) == 1 and isinstance(n.targets[0], ast.Tuple):
                 names = [ast.unparse(e) for e in n.targets[0].elts]
